@@ -19,6 +19,7 @@ package main
 // Values travel as `<shape>:<seed>`: generator and executor rebuild the same Go value from it.
 
 import (
+	"context"
 	"bytes"
 	"encoding/json"
 	"encoding/xml"
@@ -460,6 +461,10 @@ func parsePre(s string) []preAtom {
 			out = append(out, preAtom{kind: p[0], data: unhx(p[1])})
 		case "h":
 			out = append(out, preAtom{kind: "h", code: atoi(p[1])})
+		case "x":
+			// the request's context is cancelled (a derived context, cancelled at once) before the render call: the
+			// handler is still running and what it renders is still the response (the model ignores the atom)
+			out = append(out, preAtom{kind: "x"})
 		}
 	}
 	return out
@@ -468,6 +473,19 @@ func parsePre(s string) []preAtom {
 func execRender(args []string, lines [][]string) []string {
 	method := args[0]
 	opts := flamego.RenderOptions{Charset: unhx(args[1]), JSONIndent: unhx(args[2]), XMLIndent: unhx(args[3])}
+	// the run-time environment is no input of rendering: every session picks one of the three by its own arguments
+	// (before the Renderer is constructed) and what is sent must not depend on it
+	h := len(lines)
+	for _, a := range args {
+		for i := 0; i < len(a); i++ {
+			h = h*31 + int(a[i])
+		}
+	}
+	if h < 0 {
+		h = -h
+	}
+	flamego.SetEnv([]flamego.EnvType{flamego.EnvTypeDev, flamego.EnvTypeProd, flamego.EnvTypeTest}[h%3])
+	defer flamego.SetEnv(flamego.EnvTypeDev)
 	f := flamego.NewWithLogger(io.Discard)
 	f.Use(flamego.Renderer(opts))
 	var action func(c flamego.Context, r flamego.Render)
@@ -508,6 +526,10 @@ func execRender(args []string, lines [][]string) []string {
 					w.WriteHeader(a.code)
 				case "w":
 					_, _ = w.Write([]byte(a.data))
+				case "x":
+					ctx, cancel := context.WithCancel(c.Request().Context())
+					c.Request().Request = c.Request().Request.WithContext(ctx)
+					cancel()
 				}
 			}
 			switch kind {
@@ -930,7 +952,7 @@ func genRender(r *rand.Rand, tier string, emit Emit) {
 	// ---- small scope, exhaustive: every method × charset × json indent × xml indent, and in each
 	// every kind × status × pre × a few payloads
 	statuses := []int{200, 404, 204, 100}
-	pres := []string{"n", "h:202", "w:" + hx("pre"), "c:" + hx("image/png")}
+	pres := []string{"n", "h:202", "w:" + hx("pre"), "c:" + hx("image/png"), "x:1"}
 	if thorough {
 		statuses = []int{200, 201, 404, 500, 204, 304, 100, 599, 999}
 		pres = append(pres, "h:202,w:"+hx("x"), "c:"+hx("image/png")+",h:500", "w:"+hx(""))
